@@ -2,11 +2,11 @@ package main
 
 import (
 	"fmt"
-	"sync"
 	"go/token"
 	"go/types"
 	"sort"
 	"strings"
+	"sync"
 
 	"golang.org/x/tools/go/ssa"
 )
@@ -450,7 +450,7 @@ func (ex *Exec) invoke(fr *Frame, st *State, x ssa.CallInstruction, recv Val, m 
 		return []callRes{{st: st, panic: true, msg: "method call on nil interface", pos: ex.pos(x)}}
 	}
 	// unknown receiver: external call
-	st.Events = append(st.Events, Event{Kind: "call:invoke " + m.Name(), Args: args, Pos: ex.pos(x)})
+	st.Events = append(st.Events, Event{Kind: "call:invoke " + m.Name(), Recv: recv, Args: args, Pos: ex.pos(x)})
 	if sum, ok := ex.invokeSummary(st, m, args, resT); ok {
 		return sum
 	}
@@ -519,6 +519,9 @@ func (ex *Exec) callFn(fr *Frame, st *State, fn *ssa.Function, args []Val, x ssa
 			return res
 		}
 	}
+	if res, ok := ex.fmtSummary(fr, st, fn, args, x, resT); ok {
+		return res
+	}
 	if res, ok := ex.libSummary(fr, st, fn, args, x, resT); ok {
 		return res
 	}
@@ -528,7 +531,7 @@ func (ex *Exec) callFn(fr *Frame, st *State, fn *ssa.Function, args []Val, x ssa
 			recursive = true
 		}
 	}
-	inlineOK := fn.Blocks != nil && !ex.NoInline[fn] && !recursive && fr.depth < ex.MaxDepth && (InModule(fn) || inlineStd(fn))
+	inlineOK := fn.Blocks != nil && !ex.NoInline[fn] && !recursive && !(ex.NoInlineFn != nil && ex.NoInlineFn(fn)) && fr.depth < ex.MaxDepth && (InModule(fn) || inlineStd(fn))
 	if !inlineOK {
 		st.Events = append(st.Events, Event{Kind: "call:opaque " + fn.String(), Args: args, Pos: ex.pos(x)})
 		if recursive || fr.depth >= ex.MaxDepth {
@@ -555,6 +558,9 @@ func (ex *Exec) callFn(fr *Frame, st *State, fn *ssa.Function, args []Val, x ssa
 		}
 	}
 	ex.Stats.Calls++
+	if callProfile != nil {
+		callProfile[fn.String()]++
+	}
 	outs := ex.enter(sub, st, fn.Blocks[0], nil)
 	var res []callRes
 	for _, o := range outs {
@@ -574,6 +580,9 @@ func (ex *Exec) callFn(fr *Frame, st *State, fn *ssa.Function, args []Val, x ssa
 	}
 	return res
 }
+
+// callProfile (debugging, ABSDEBUG): how often each function is entered.
+var callProfile map[string]int
 
 func qualOfFn(f *ssa.Function) string {
 	if f.Pkg != nil {
